@@ -5,6 +5,7 @@ CONSTANTS
   Classes = {"none", "field", "id", "splice", "forge"}
   Entries = {"payload", "header"}
   Dropped = {}
+  Lenient = {}
 INVARIANT Inv
 INVARIANT Emit
 CHECK_DEADLOCK FALSE
